@@ -601,6 +601,46 @@ impl Check for PathProp {
             }
             "C02" => {
                 with_setup_histories(&mut scn, &mut rng, o.max_iters);
+                // An angular goal region that reaches across an excluded arc: the space bounds an
+                // SO(2) component to a sub-interval, the goal target sits just inside one end of
+                // it and the region extends over the excluded arc and beyond; the harness sampler
+                // hands out goal states anywhere in the region, most of them outside the bounds
+                // (whatever a planner does to such a sample — clamping sends it to the NEAREST
+                // end, possibly the far one — the path has to end in the goal region).
+                let mut rng3 = Xo::new(mix(seed, "C02-angular-goal-over-gap", index));
+                if rng3.chance(0.12) {
+                    let lay = crate::spaces::layout(&scn.space);
+                    let ws = crate::spaces::comp_weights(&scn.space);
+                    let found: Option<(usize, f64, f64, f64)> = match &scn.space {
+                        SpaceSpec::SO2 { bounds: Some((lo, hi)), .. } => Some((0, *lo, *hi, 1.0)),
+                        SpaceSpec::SE2 { bounds, weight, .. } => Some((2, bounds[2].0, bounds[2].1, *weight)),
+                        SpaceSpec::Compound { parts, .. } => parts.iter().enumerate().find_map(|(k, p)| match p {
+                            SpaceSpec::SO2 { bounds: Some((lo, hi)), .. } => Some((crate::spaces::comp_offset(&lay, k), *lo, *hi, ws[k])),
+                            _ => None,
+                        }),
+                        _ => None,
+                    };
+                    if let Some((off, lo, hi, w)) = found {
+                        let gap = 2.0 * std::f64::consts::PI - (hi - lo);
+                        if gap > 1e-3 && gap < 1.5 && w > 0.0 && scn.problems[0].space.is_none() {
+                            let inset = gap * rng3.range(0.05, 0.5);
+                            let half = gap * rng3.range(0.7, 1.6) + inset;
+                            let mut geo = crate::spaces::geo_for(&scn.space).unwrap();
+                            geo.set_worlds(&scn.worlds);
+                            let mut t = scn.problems[0].goal.target.clone();
+                            t[off] = if rng3.chance(0.5) { hi - inset } else { lo + inset };
+                            if geo.valid(scn.problems[0].world, &t) && geo.in_bounds(&t) {
+                                let g = &mut scn.problems[0].goal;
+                                g.target = t;
+                                g.radius = g.radius.max(w * half);
+                                g.comp = None;
+                                g.sampler = GoalSampler::Harness;
+                                g.cycle = vec![];
+                                scn.params.insert("angular_goal_over_gap".into(), 1.0);
+                            }
+                        }
+                    }
+                }
                 // start rotations written with seven decimals (|q|^2 off 1 by about 1e-7): the
                 // constructors do not normalise, and the path has to begin with the start state
                 // as given, bit for bit — not with a tidied copy of it
